@@ -121,7 +121,13 @@ fn honest_scenario(rng: &mut StdRng, sc: usize, out: Box<dyn std::io::Write>, kv
             }
             63..=77 => env.refresh(&mut sim),
             78..=87 => {
-                sim.advance(1);
+                // seconds around the documented limits: the refresh lag (8 s) and the message time-out (60 s)
+                const SECS: [u64; 14] = [1, 7, 8, 9, 22, 30, 30, 30, 52, 59, 60, 61, 68, 69];
+                if rng.gen_bool(0.5) {
+                    sim.advance(1);
+                } else {
+                    sim.advance_secs(SECS[rng.gen_range(0..SECS.len())]);
+                }
             }
             88..=95 => {
                 let k = rng.gen_range(1..=3);
@@ -324,8 +330,8 @@ fn mut_scenario(rng: &mut StdRng, sc: usize, out: Box<dyn std::io::Write>, kv: &
     let pow = if rng.gen_bool(0.4) { "eaglesong" } else { "dummy" };
     let last_n = *[1u64, 2, 3, 5][..].get(rng.gen_range(0..4)).unwrap();
     let main_len = rng.gen_range(3..=arg_u64(kv, "maxlen", 40) as usize);
-    let with_fork = last_n >= 2 && main_len > 6 && rng.gen_bool(0.5);
-    let built = build_world(rng, pow, main_len, if with_fork { 1 } else { 0 }, ((last_n as usize) / 2).max(1), true);
+    let with_fork = last_n >= 2 && main_len > 6 && rng.gen_bool(0.7);
+    let built = build_world(rng, pow, main_len, if with_fork { 1 } else { 0 }, (last_n as usize).max(1), true);
     let cfg = Config { last_n, max_outbound: 2, ..Default::default() };
     let leaves = built.leaves.clone();
     let mut built = built;
@@ -350,8 +356,24 @@ fn mut_scenario(rng: &mut StdRng, sc: usize, out: Box<dyn std::io::Write>, kv: &
     let main = leaves[0];
     let n = sim.chain.blocks[main].num;
     // pre-state kinds: 0 first proof from genesis; 1 new proof after growth; 2 after restart; 3 reorg to the fork
-    let kind = if with_fork && rng.gen_bool(0.4) { 3 } else { rng.gen_range(0..3) };
-    let first_tip = if kind == 0 { main } else { sim.chain.ancestor_at(main, rng.gen_range(1..=n)).unwrap() };
+    let kind = if with_fork && rng.gen_bool(0.6) { 3 } else { rng.gen_range(0..3) };
+    let first_tip = if kind == 0 {
+        main
+    } else if kind == 3 && rng.gen_bool(0.8) {
+        // a stored tip on the part of the main branch that the fork abandons, below the fork leaf's number: the
+        // request then starts at a block the serving peer does not have and the answer carries a reorg section
+        let fleaf = leaves[1];
+        let fnum = sim.chain.blocks[fleaf].num;
+        let mut common = fleaf;
+        while sim.chain.ancestor_at(main, sim.chain.blocks[common].num) != Some(common) {
+            common = sim.chain.blocks[common].parent.unwrap();
+        }
+        let lo = sim.chain.blocks[common].num + 1;
+        let hi = n.min(fnum.saturating_sub(1));
+        if lo <= hi { sim.chain.ancestor_at(main, rng.gen_range(lo..=hi)).unwrap() } else { sim.chain.ancestor_at(main, rng.gen_range(1..=n)).unwrap() }
+    } else {
+        sim.chain.ancestor_at(main, rng.gen_range(1..=n)).unwrap()
+    };
     let target_leaf = if kind == 3 { leaves[1] } else { main };
     let mut env = Env::new(&sim, &[(first_tip, main), (first_tip, target_leaf)]);
     sim.reset(json!({"mode": "mut", "kind": kind}));
@@ -394,7 +416,7 @@ fn mut_scenario(rng: &mut StdRng, sc: usize, out: Box<dyn std::io::Write>, kv: &
             // a seeded subset when there are too many
             while muts.len() > maxmut {
                 let k = rng.gen_range(0..muts.len());
-                if muts[k].label.starts_with("cross-branch") {
+                if muts[k].label.starts_with("cross-branch") || muts[k].label.starts_with("reproved.reorg") {
                     continue;
                 }
                 muts.swap_remove(k);
@@ -458,7 +480,19 @@ fn adv_scenario(rng: &mut StdRng, sc: usize, out: Box<dyn std::io::Write>, _kv: 
     let cfg = Config { last_n, max_outbound: 2, ..Default::default() };
     let mut sim: Sim = new_sim(chain, cfg, 2, out, &format!("adv-{}", sc), vec!["peersync"]);
     let start = sim.chain.ancestor_at(main, rng.gen_range(1..=(main_len - depth) as u64)).unwrap();
-    let mut env = Env::new(&sim, &[(adv, adv), (start, main)]);
+    // staged: the deviating peer first shows a flawless prefix of its branch and moves on to the flawed part while
+    // its answers are outstanding ("my tip is different" answers whose new last header is the flawed block)
+    let staged = rng.gen_bool(0.5);
+    let adv_first = if staged {
+        // a block of the main branch above the fork point: the requested last header is then not on the chain the
+        // peer serves later, which makes it answer "my tip is different" with the header of its (flawed) branch
+        let lo = sim.chain.blocks[fork_at].num + 1;
+        let hi = sim.chain.blocks[main].num;
+        sim.chain.ancestor_at(main, rng.gen_range(lo..=hi)).unwrap()
+    } else {
+        adv
+    };
+    let mut env = Env::new(&sim, &[(adv_first, adv), (start, main)]);
     sim.reset(json!({"mode": "adv", "flaw": if unmined { "unmined" } else { "unrooted" }}));
     for _ in 0..14 {
         let i = rng.gen_range(0..2usize);
@@ -478,6 +512,7 @@ fn adv_scenario(rng: &mut StdRng, sc: usize, out: Box<dyn std::io::Write>, _kv: 
             }
             7 => {
                 env.grow(&sim, 1, 3);
+                env.grow(&sim, 0, rng.gen_range(1..=2));
             }
             8 => env.refresh(&mut sim),
             _ => {
